@@ -10,6 +10,7 @@ ANCHORS = ["src/tickit/core/management/event_router.py", "src/tickit/core/manage
            "src/tickit/core/components/system_component.py"]
 TECHNIQUE = "Lean 4 theorems (invariant 'component inputs = latest reported upstream values' over all multi-tick histories and answer orders of flat simulations) + whole-simulation trace validation incl. nested boundaries against the model"
 LEVEL_TEXT = "Theorems over the flat multi-tick model (any wiring with one source per port, any devices, any number of ticks, any answer order in each tick): the invariant that every wired input holds the latest value ever reported on its source is preserved by every tick, and every observation made in a tick has exactly the wired ports, each with the latest reported value including values produced earlier in the same tick. THROUGH SYSTEM BOUNDARIES: the nested whole-simulation model (any depth) is proved to refine that flat system over the resolved device-level wiring (C09 transparency + 'a flat whole-simulation run is a FlatRun'), so every observation of every device at any depth is explained by a Synced flat run: external and exposed ports deliver exactly the latest values of the resolved sources, in both directions, within the same tick. WITH INTERRUPTS (Props/FlatInt: the flat system extended by external stimuli between ticks, any script of ticks and interrupts): the invariant holds after every such history and every observation was made with the latest reported values (synced_runI, inputs_latest_runI). And through system boundaries WITH interrupts (Props/C03NestedInt): a run of the whole-simulation model with stimuli on a flat configuration is a FlatRunI whose script has exactly the handled stimuli at their positions with the model's stamps, and a nested run with timely stimuli on interrupt-safe devices has, device by device, the observations of a Synced FlatRunI over the resolved wiring (nested_refines_flatRunI, nested_inputs_synced_int). (For callback histories the restriction to first-in first-out answers inside nested schedulers is removed: every run in which every level answers its pending dispatches in ANY order has, device by device, the observations of a Synced FlatRun over the resolved wiring - any_order_run_refines_flatRun. Untimely or mid-tick stimuli inside systems are validated.) Tie to the code: per-device observation sequences of generated flat and nested simulations (depth <= 3, shared port names, several wires from one source, pass-through ports) under two buses must equal those of the Lean model, and a direct monitor checks inputs == latest upstream values through the resolved wiring."
+LEVEL_ADDENDUM = "Session 8: system inputs exposed straight through (expose <- external) with no inner listener, also through two levels (generator + corpus); scenarios at other time scales with nearly simultaneous wakeups; one generated scenario in four from a configuration FILE through tickit's own loading path, possibly divided over several simulations."
 LEVEL_NOTE = 'Trusts: Lean kernel; hand-written models (tied by whole-simulation trace validation on every run).'
 ASSUMPTIONS = ["each input port has one source", "acyclic wiring", "valid configuration names (unique, not 'external'/'expose')"]
 MON = ("inputs_latest", "device_order")
